@@ -215,17 +215,69 @@ package aa
 //@   ensures forall(k, i, len(result), result[k] == r[k+1])
 //@   ensures forall(k, i+1, len(r), result[k-1] == r[k])
 
+// Rules.Merge repeats mergeOnce until a pass removes nothing. "stable" below means: no two
+// rules of the list are both nil, identical (Compare == 0, comments excepted) or mergeable
+// (Merge answers true) in the current heap version HV. A pass keeps the length exactly when
+// the list was stable, and then changes nothing; hence Merge returns a stable list and
+// leaves a stable list alone (idempotence, composed in verifMergeTwice).
 //@ func (Rules).Merge
+//@   opt prop=C10
+//@   rulesmerge
+//@   assigns nothing
+//@   loop 1 invariant 0 <= n
+//@   loop 1 invariant exists(k, 0, len(r), D(r[k])) == old(exists(k, 0, len(r), D(r[k])))
+//@   loop 1 invariant imp(n == len(r), forall2(a, b, 0 <= a && a < b && b < len(r), pairstable(r[a], r[b])))
+//@   loop 1 invariant imp(old(forall2(a, b, 0 <= a && a < b && b < len(r), pairstable(r[a], r[b]))), HV() == old(HV()) && len(r) == old(len(r)) && forall(k, 0, len(r), r[k] == old(r[k])))
+//@   loop 1 decreases len(r) + ite(n != len(r), 1, 0)
+//@   ensures exists(k, 0, len(result), D(result[k])) == old(exists(k, 0, len(r), D(r[k])))
+//@   ensures forall2(a, b, 0 <= a && a < b && b < len(result), pairstable(result[a], result[b]))
+//@   ensures imp(old(forall2(a, b, 0 <= a && a < b && b < len(r), pairstable(r[a], r[b]))), HV() == old(HV()) && len(result) == len(r) && forall(k, 0, len(r), result[k] == r[k]))
+
+//@ func (Rules).mergeOnce
 //@   opt prop=C10
 //@   rulesmerge
 //@   assigns nothing
 //@   loop 1 invariant 0 <= i && i <= len(r)
 //@   loop 1 invariant exists(k, 0, len(r), D(r[k])) == old(exists(k, 0, len(r), D(r[k])))
+//@   loop 1 invariant len(r) <= old(len(r))
+//@   loop 1 invariant imp(len(r) == old(len(r)), HV() == old(HV()) && forall(k, 0, len(r), r[k] == old(r[k])))
+//@   loop 1 invariant imp(len(r) == old(len(r)), old(forall2(a, b, 0 <= a && a < i && a < b && b < len(r), pairstable(r[a], r[b]))))
+//@   loop 1 invariant imp(old(forall2(a, b, 0 <= a && a < b && b < len(r), pairstable(r[a], r[b]))), len(r) == old(len(r)))
 //@   loop 1 decreases len(r) - i
 //@   loop 2 invariant 0 <= i && i < j && j <= len(r) && len(r) <= len(at(1, r))
 //@   loop 2 invariant exists(k, 0, len(r), D(r[k])) == old(exists(k, 0, len(r), D(r[k])))
+//@   loop 2 invariant len(r) <= old(len(r))
+//@   loop 2 invariant imp(len(r) == old(len(r)), HV() == old(HV()) && forall(k, 0, len(r), r[k] == old(r[k])))
+//@   loop 2 invariant imp(len(r) == old(len(r)), old(forall2(a, b, 0 <= a && a < i && a < b && b < len(r), pairstable(r[a], r[b]))))
+//@   loop 2 invariant imp(len(r) == old(len(r)), old(forall(b, i+1, j, pairstable(r[i], r[b]))))
+//@   loop 2 invariant imp(old(forall2(a, b, 0 <= a && a < b && b < len(r), pairstable(r[a], r[b]))), len(r) == old(len(r)))
 //@   loop 2 decreases len(r) - j
 //@   ensures exists(k, 0, len(result), D(result[k])) == old(exists(k, 0, len(r), D(r[k])))
+//@   ensures len(result) <= len(r)
+//@   ensures imp(len(result) == len(r), HV() == old(HV()) && forall(k, 0, len(r), result[k] == r[k]))
+//@   ensures len(result) == len(r) == old(forall2(a, b, 0 <= a && a < b && b < len(r), pairstable(r[a], r[b])))
+
+// Idempotence of Rules.Merge, as lemmas over its contract (ghost code in lemmas_verif.go).
+//@ func verifHV
+//@   opt prop=C10
+//@   trusted
+//@   assigns nothing
+//@   ensures result == HV()
+//@   ensures HV() == old(HV())
+
+//@ func verifMergeTwice
+//@   opt prop=C10
+//@   rulesmerge
+//@   assigns nothing
+//@   ensures len(second(result)) == len(first(result))
+//@   ensures forall(k, 0, len(first(result)), second(result)[k] == first(result)[k])
+
+//@ func verifMergeTwiceKeepsRules
+//@   opt prop=C10
+//@   rulesmerge
+//@   assigns nothing
+//@   ensures result
+
 // Profile.Merge: the set of flags is kept, the rules go through Rules.Merge (so the facts
 // they express are kept), nothing else of the profile changes and the method reports
 // "not merged" (profile blocks are never merged with each other).
